@@ -94,6 +94,9 @@ def ordered_indices(expr, shapes):
             base_order[i] = left + 0.01
 
     base_order = dict(sorted(base_order.items(), key=lambda x: x[0]))
+    # indices with equal order would be sorted differently in each operand
+    ranked = sorted(base_order, key=lambda x: (base_order[x], x))
+    base_order = {k: i for i, k in enumerate(ranked)}
     return base_order
 
 
